@@ -82,7 +82,12 @@ EpcChecks(e, a, x, known, line) ==
         sync |-> e.has_sync => (syncOK \/ StaleRunning(e, a, known, line))]
 
 StateChecks(e, x, known) ==
+    LET aggNext == AggregateOf(e.agg_oracle, x.syncNext)               \* aggregate_pubkey of get_next_sync_committee(state)
+        aggRot == AggregateOf(e.agg_oracle, x.syncAtRotation)
+    IN
     [direct |-> ~("sync_direct_err" \in DOMAIN e) /\ e.sync_direct = x.syncNext,
+     \* IndicesToSyncCommittee: aggregate over the seats, repetitions included
+     directAggregate |-> e.sync_direct_agg = aggNext,
      stored |-> IF ~e.has_sync THEN TRUE
                 ELSE CASE e.boundary = "upgrade" ->
                             e.state_sync_cur = x.syncNext /\ e.state_sync_next = x.syncNext
@@ -91,7 +96,17 @@ StateChecks(e, x, known) ==
                             /\ (known.known /\ ~e.new_chain) => e.state_sync_cur = known.next
                        [] OTHER ->
                             (known.known /\ ~e.new_chain) =>
-                                e.state_sync_cur = known.cur /\ e.state_sync_next = known.next]
+                                e.state_sync_cur = known.cur /\ e.state_sync_next = known.next,
+     storedAggregate |->
+                IF ~e.has_sync THEN TRUE
+                ELSE CASE e.boundary = "upgrade" ->
+                            e.state_sync_cur_agg = aggNext /\ e.state_sync_next_agg = aggNext
+                       [] e.boundary = "rotate" ->
+                            /\ e.state_sync_next_agg = aggRot
+                            /\ (known.known /\ ~e.new_chain) => e.state_sync_cur_agg = known.nextAgg
+                       [] OTHER ->
+                            (known.known /\ ~e.new_chain) =>
+                                e.state_sync_cur_agg = known.curAgg /\ e.state_sync_next_agg = known.nextAgg]
 
 AllTrue(r) == \A f \in DOMAIN r : r[f]
 
@@ -112,7 +127,7 @@ Diag(e, known, line) ==
         state |-> StateChecks(e, x, known),
         expected |-> x]
 
-NoSync == [known |-> FALSE, cur |-> << >>, next |-> << >>]
+NoSync == [known |-> FALSE, cur |-> << >>, next |-> << >>, curAgg |-> << >>, nextAgg |-> << >>]
 NoRun == [hasRun |-> FALSE, runCur |-> << >>, runNext |-> << >>]
 Init == l = 1 /\ sc = NoSync @@ NoRun
 
@@ -129,7 +144,8 @@ Next ==
     /\ LET e == Trace[l]
        IN sc' = (IF ~e.has_sync THEN NoSync
                  ELSE IF e.boundary # "" \/ (sc.known /\ ~e.new_chain)
-                      THEN [known |-> TRUE, cur |-> e.state_sync_cur, next |-> e.state_sync_next]
+                      THEN [known |-> TRUE, cur |-> e.state_sync_cur, next |-> e.state_sync_next,
+                            curAgg |-> e.state_sync_cur_agg, nextAgg |-> e.state_sync_next_agg]
                       ELSE NoSync) @@ RunOf(e)
     /\ LET e == Trace[l]
        IN IF Diagnose
